@@ -177,7 +177,7 @@ fn gen_kids(r: &mut Rng, o: &GenOpts, depth: usize, n: usize, budget: &mut usize
 /// scope), or the length of a text and an attribute value — inline buffers, depth caps and batch sizes of 8 … 64 are exceeded
 pub fn gen_big_doc(r: &mut Rng, fragment: bool) -> SDoc {
     let leaf = |l: &str| SElem { prefix: String::new(), local: l.to_string(), decls: vec![], attrs: vec![], kids: vec![] };
-    let el = match r.below(4) {
+    let el = match r.below(5) {
         0 => {
             // deep: 18 … 30 levels, every level declares another prefix (x0, x1, …) and may use one declared further out;
             // one of the outermost levels re-declares an inner prefix for another namespace
@@ -223,9 +223,15 @@ pub fn gen_big_doc(r: &mut Rng, fragment: bool) -> SDoc {
         }
         _ => {
             // long character data
+            // (a blank every few characters: each can be spelt as a TAB, a line feed, a carriage return or both in an attribute value)
+            let spaced = |r: &mut Rng, lo: usize, hi: usize| -> String {
+                let t = gen_string(r, lo, hi);
+                t.chars().enumerate().flat_map(|(i, c)| if i % 7 == 6 { vec![' ', c] } else { vec![c] }).collect()
+            };
             let mut e = leaf("a");
-            e.attrs = vec![SAttr { prefix: String::new(), local: "x".into(), value: gen_string(r, 40, 120) }];
-            e.kids = vec![SNode::Text(gen_string(r, 40, 200)), SNode::Elem(leaf("b")), SNode::Text(gen_string(r, 30, 60))];
+            e.attrs = vec![SAttr { prefix: String::new(), local: "x".into(), value: spaced(r, 40, 120) },
+                           SAttr { prefix: String::new(), local: "y".into(), value: spaced(r, 33, 40) }];
+            e.kids = vec![SNode::Text(spaced(r, 40, 200)), SNode::Elem(leaf("b")), SNode::Text(gen_string(r, 30, 60))];
             e
         }
     };
@@ -233,8 +239,8 @@ pub fn gen_big_doc(r: &mut Rng, fragment: bool) -> SDoc {
 }
 
 pub fn gen_doc(r: &mut Rng, fragment: bool) -> SDoc {
-    // one document in sixteen is large in one dimension
-    if r.chance(1, 16) {
+    // one document in ten is large in one dimension
+    if r.chance(1, 10) {
         return gen_big_doc(r, fragment);
     }
     let o = GenOpts { max_depth: 1 + r.below(5), max_kids: 1 + r.below(4), budget: 2 + r.below(30) };
